@@ -1170,6 +1170,10 @@ class Context(object):
             self.addLocal(name, newclass)
         else:
             self.addGlobal(name, newclass)
+            # A global definition replaces the local ones of every open
+            # group (TeX discards their saved values as well)
+            for context in self.contexts[1:]:
+                dict.pop(context, name, None)
 
     def get_let(self, command):
         for context in reversed(self.contexts):
